@@ -15,6 +15,8 @@ import SkNet.Lemmas.ModularityRule
 import SkNet.Lemmas.ModularityConn
 import SkNet.Lemmas.ModularityTermZero
 import SkNet.Lemmas.ModularityRelabel
+import SkNet.Lemmas.ModularityShuffle
+import SkNet.Lemmas.ModularityFast
 
 namespace SkNet.C06
 open SkNet SkNet.Modularity
@@ -222,20 +224,42 @@ theorem best_move_rule (g : Graph Rat) (hg : GraphOK g) (res : Rat) (K : Nat) (s
       (∀ t, cand t → moveGain g res st.labels i t = moveGain g res st.labels i b → b ≤ t)) :=
   nodeStep_rule g hg res K st acc hinv i hi
 
-/-- **optimize_core_increase.**  If `optimize_core` returns (any fuel, any tolerance), the returned `increase` is
-    `Q(labels_out) − Q(labels_in)` and it is non-negative. -/
-theorem optimize_core_increase (g : Graph Rat) (hg : GraphOK g) (res tol : Rat) (K : Nat) (fuel : Nat)
+/-- **optimize_core_increase.**  `optimize_core` as compiled (the loop ends by its tolerance or by its own bound of
+    `n + 1` passes, so it always returns), in exact arithmetic: the returned `increase` is `Q(labels_out) − Q(labels_in)`
+    and it is non-negative — any tolerance, any resolution, any start that satisfies the invariant. -/
+theorem optimize_core_increase (g : Graph Rat) (hg : GraphOK g) (res tol : Rat) (K : Nat) (st : St Rat)
+    (hinv : CoreInv g K st) :
+    (optimizeCoreCapped g res tol st).2
+        = QG g res (optimizeCoreCapped g res tol st).1 - QG g res st.labels ∧
+    0 ≤ (optimizeCoreCapped g res tol st).2 :=
+  let ⟨h1, h2, _⟩ := optimizeCoreCapped_spec g hg res tol K st hinv
+  ⟨h1, h2⟩
+
+/-- the same for the loop without the bound on the passes (`optimizeCore`, the reference loop), whenever it returns;
+    and whenever it returns within `n + 1` passes the compiled loop returns the same (`coreCapped_of_coreLoop`) -/
+theorem optimize_core_increase_unbounded (g : Graph Rat) (hg : GraphOK g) (res tol : Rat) (K : Nat) (fuel : Nat)
     (st : St Rat) (hinv : CoreInv g K st) (labels' : List Nat) (inc : Rat)
     (h : optimizeCore g res tol fuel st = some (labels', inc)) :
     inc = QG g res labels' - QG g res st.labels ∧ 0 ≤ inc :=
   let ⟨h1, h2, _⟩ := optimizeCore_spec g hg res tol K fuel st hinv labels' inc h
   ⟨h1, h2⟩
 
-/-- **termination of `optimize_core`** in exact arithmetic, for every tolerance `≥ 0`: `Q` takes finitely many
-    values over the label vectors and every pass that does not stop the loop raises it by more than `tol ≥ 0`, so
-    from some fuel on the model returns (and `optimize_core_increase` applies).
-    With float32 rounding this does **not** carry over to the compiled kernel when `tol_optimization = 0`
-    (spurious gains can cycle for ever: observed, reported to C17). -/
+/-- **what is NOT proved: the compiled arithmetic.**  The kernels compute in IEEE binary32; the statement the property
+    makes of them is `optimize_core_increase` up to rounding: for the `Float32` instance of the very same model
+    (the one the run lines compare bit for bit with the compiled kernel), the rational value of the returned
+    `increase` is within `ε` of the exact change of `Q`.  Tested by the spec lines with `ε = 2e-5` on graphs of up to
+    2 000 nodes (observed drift 5e-6 at 20 000 nodes: `ε` would have to grow with the number of moves); not proved. -/
+def optimize_core_increase_float32_full (ε : Rat) : Prop :=
+  ∀ (g : Graph Float32) (res tol : Float32) (K : Nat) (st : St Float32),
+    GraphOK (g.mapScalar f32ToRat) → CoreInv (g.mapScalar f32ToRat) K (st.mapScalar f32ToRat) →
+    |f32ToRat (optimizeCoreCapped g res tol st).2
+        - (QG (g.mapScalar f32ToRat) (f32ToRat res) (optimizeCoreCapped g res tol st).1
+            - QG (g.mapScalar f32ToRat) (f32ToRat res) st.labels)| ≤ ε
+
+/-- **termination of the loop of `optimize_core` without its bound on the passes**, exact arithmetic, every tolerance
+    `≥ 0`: `Q` takes finitely many values over the label vectors and every pass that does not stop the loop raises it
+    by more than `tol ≥ 0`.  (In float32 this fails for `tol_optimization = 0` — spurious gains cycle — which is why
+    the kernel now bounds its passes; see C17.) -/
 theorem optimize_core_terminates (g : Graph Rat) (hg : GraphOK g) (res tol : Rat) (htol : 0 ≤ tol) (K : Nat)
     (st : St Rat) (hinv : CoreInv g K st) :
     ∃ fuel : Nat, ∀ fuel', fuel ≤ fuel' → (optimizeCore g res tol fuel' st).isSome = true :=
@@ -244,11 +268,10 @@ theorem optimize_core_terminates (g : Graph Rat) (hg : GraphOK g) (res tol : Rat
 /-- **clusters_within_components (one call of the kernel).**  A node only ever joins the cluster of a stored
     neighbour: if every cluster of the incoming labels lies in one connected component of the stored pattern
     (true of singletons), so does every cluster of the returned labels. -/
-theorem optimize_core_within_components (g : Graph Rat) (hg : GraphOK g) (res tol : Rat) (K : Nat) (fuel : Nat)
-    (st : St Rat) (hinv : CoreInv g K st) (labels' : List Nat) (inc : Rat)
-    (h : optimizeCore g res tol fuel st = some (labels', inc)) (hw : WithinComp g st.labels) :
-    WithinComp g labels' :=
-  let ⟨_, _, h3, _⟩ := optimizeCore_spec g hg res tol K fuel st hinv labels' inc h
+theorem optimize_core_within_components (g : Graph Rat) (hg : GraphOK g) (res tol : Rat) (K : Nat)
+    (st : St Rat) (hinv : CoreInv g K st) (hw : WithinComp g st.labels) :
+    WithinComp g (optimizeCoreCapped g res tol st).1 :=
+  let ⟨_, _, h3, _⟩ := optimizeCoreCapped_spec g hg res tol K st hinv
   h3.withinComp hg.cols hinv.len hw
 
 /-! ## 4. aggregation and the whole fit -/
@@ -296,51 +319,123 @@ theorem objective_eq_modularity (kind : Kind) (nRow nCol nnz : Nat) (B : Nat →
   obtain ⟨w, hw, rfl⟩ := preProcess_ok _ _ _ _ _ _ _ h
   exact ⟨symLevel_levelOK _ _ _ _, kindWeights_objective kind _ _ w hw γ c⟩
 
-/-- **louvain_never_worse.**  Whenever `Louvain.fit` returns (any graph, kind, resolution, tolerances, aggregation
-    limit; exact arithmetic), the objective of the kind — the documented formula on the input matrix — of the
-    returned labels equals that of the all-singletons partition plus the sum of the logged increases, every
-    logged increase is non-negative, hence the returned partition is at least as good as the singletons. -/
-theorem louvain_never_worse (kind : Kind) (res tolOpt tolAgg : Rat) (nAgg : Int) (nRow nCol nnz : Nat)
-    (B : Nat → Nat → Rat) (fb : Bool) (coreFuel : Nat) (out : FitOut)
-    (h : louvainFit kind res tolOpt tolAgg nAgg nRow nCol nnz B fb coreFuel = .ok (some out)) :
+/-! ### the fits.  What is proved (`…_partial`) is about the models of `Louvain.fit` / `Leiden.fit` **as compiled
+(kernels with their bound of `n + 1` passes), in exact arithmetic, `sort_clusters=False`, for every run of the model
+that returns**; what is missing is stated in `never_worse_float32_full` and `fits_return_full` below. -/
+
+/-- the per-cluster form of the objective that the spec lines use on graphs with hundreds of nodes
+    (`Σ_k vol⁺(k)·vol⁻(k)` for the null model) is the objective of the specification, for every kind -/
+theorem objective_fast_eq (kind : Kind) (n : Nat) (A : Nat → Nat → Rat) (γ : Rat) (c : Nat → Nat) (K : Nat)
+    (hc : ∀ i, i < n → c i < K) :
+    objective kind n A γ c =
+      match kind with
+      | .dugue => objectiveFast n A (totalWeight n A) (fun i => outDeg n A i / totalWeight n A)
+          (fun j => inDeg n A j / totalWeight n A) γ c K
+      | .newman => objectiveFast n A (totalWeight n A) (fun i => outDeg n A i / totalWeight n A)
+          (fun j => outDeg n A j / totalWeight n A) γ c K
+      | .potts => objectiveFast n A (totalWeight n A) (fun _ => 1 / (n : Rat)) (fun _ => 1 / (n : Rat)) γ c K
+      | .other => 0 :=
+  objectiveFast_eq kind n A γ c K hc
+
+/-- **louvain_never_worse (partial: exact arithmetic, `shuffle_nodes=False`).**  Whenever the model of `Louvain.fit`
+    returns (any graph, kind, resolution, tolerances, aggregation limit), the objective of the kind — the documented
+    formula on the input matrix — of the returned labels equals that of the all-singletons partition plus the sum of
+    the logged increases, every logged increase is non-negative, hence the returned partition is at least as good as
+    the singletons.  Missing: float32 rounding of the gains (`never_worse_float32_full`); that the outer loop always
+    returns within the `n + 1` rounds the model allows (`fits_return_full`; C17 proves it for the kernel without its
+    bound on the passes). -/
+theorem louvain_never_worse_partial (kind : Kind) (res tolOpt tolAgg : Rat) (nAgg : Int) (nRow nCol nnz : Nat)
+    (B : Nat → Nat → Rat) (fb : Bool) (out : FitOut)
+    (h : louvainFitCapped kind res tolOpt tolAgg nAgg nRow nCol nnz B fb = .ok (some out)) :
     objective kind (kindAdj kind nRow nCol B fb).1 (kindAdj kind nRow nCol B fb).2 res (labOf out.labels)
       = objective kind (kindAdj kind nRow nCol B fb).1 (kindAdj kind nRow nCol B fb).2 res (fun u => u)
         + out.increases.sum ∧
     (∀ x ∈ out.increases, 0 ≤ x) ∧
     objective kind (kindAdj kind nRow nCol B fb).1 (kindAdj kind nRow nCol B fb).2 res (fun u => u)
       ≤ objective kind (kindAdj kind nRow nCol B fb).1 (kindAdj kind nRow nCol B fb).2 res (labOf out.labels) := by
-  obtain ⟨-, h2, h3⟩ := louvainFit_spec kind res tolOpt tolAgg nAgg nRow nCol nnz B fb coreFuel out h
+  obtain ⟨-, h2, h3⟩ := louvainFitCapped_spec kind res tolOpt tolAgg nAgg nRow nCol nnz B fb out h
   refine ⟨h2, h3, ?_⟩
   rw [h2]
   have : 0 ≤ out.increases.sum := list_sum_nonneg _ h3
   linarith
 
-/-- **leiden_never_worse.**  Whenever `Leiden.fit` returns — for every oracle of the random choices of the
-    refinement, any graph, kind, resolution, tolerances — the objective of the kind of the returned labels equals
-    that of the singletons plus the sum of the logged increases, each non-negative.  (The refined partition only
-    decides how the graph is aggregated; the labels returned are the coarse clusters of `optimize_core`.) -/
-theorem leiden_never_worse (kind : Kind) (res tolOpt tolAgg : Rat) (nAgg : Int) (nRow nCol nnz : Nat)
-    (B : Nat → Nat → Rat) (fb : Bool) (coreFuel : Nat) (rands : List (List Nat)) (out : FitOut)
-    (h : leidenFit kind res tolOpt tolAgg nAgg nRow nCol nnz B fb coreFuel rands = .ok (some out)) :
+/-- **louvain_never_worse with `shuffle_nodes=True` (partial: exact arithmetic).**  For every permutation `index` of
+    the nodes the random state may draw (every shuffle seed): the fit runs on `adjacency[index][:, index]`, the labels
+    are brought back by `labels[reverse]`, and all three clauses hold on the matrix in its ORIGINAL numbering — by the
+    invariance of the objective under renumbering (`objective_relabel`). -/
+theorem louvain_never_worse_shuffled_partial (kind : Kind) (res tolOpt tolAgg : Rat) (nAgg : Int)
+    (nRow nCol nnz : Nat) (B : Nat → Nat → Rat) (fb : Bool) (index : List Nat)
+    (hp : index.Perm (List.range (kindAdj kind nRow nCol B fb).1)) (out : FitOut)
+    (h : louvainFitShuffled kind res tolOpt tolAgg nAgg nRow nCol nnz B fb index = .ok (some out)) :
+    objective kind (kindAdj kind nRow nCol B fb).1 (kindAdj kind nRow nCol B fb).2 res (labOf out.labels)
+      = objective kind (kindAdj kind nRow nCol B fb).1 (kindAdj kind nRow nCol B fb).2 res (fun u => u)
+        + out.increases.sum ∧
+    (∀ x ∈ out.increases, 0 ≤ x) ∧
+    ∀ u v, u < (kindAdj kind nRow nCol B fb).1 → v < (kindAdj kind nRow nCol B fb).1 →
+      labOf out.labels u = labOf out.labels v →
+      Connected (kindAdj kind nRow nCol B fb).1 (kindAdj kind nRow nCol B fb).2 u v :=
+  louvainFitShuffled_spec kind res tolOpt tolAgg nAgg nRow nCol nnz B fb index hp out h
+
+/-- the objective of every kind is invariant under a renumbering of the nodes (labels renumbered with them) -/
+theorem objective_relabel_invariant {n : Nat} {π π' : Nat → Nat} (h : IsPerm n π π') (kind : Kind)
+    (A : Nat → Nat → Rat) (γ : Rat) (c : Nat → Nat) :
+    objective kind n (relabelMat π' A) γ (relabelVec π' c) = objective kind n A γ c :=
+  objective_relabel h kind A γ c
+
+/-- **leiden_never_worse (partial: exact arithmetic, `shuffle_nodes=False`).**  Whenever the model of `Leiden.fit`
+    returns — for every oracle of the random choices of the refinement, any graph, kind, resolution, tolerances, any
+    number `outerFuel` of aggregations allowed — the objective of the kind of the returned labels equals that of the
+    singletons plus the sum of the logged increases, each non-negative.  (The refined partition only decides how the
+    graph is aggregated; the labels returned are the coarse clusters of `optimize_core`.)  Missing: float32 rounding;
+    that the outer loop of `Leiden.fit` always ends (`fits_return_full`: no bound in terms of `n` is known to us). -/
+theorem leiden_never_worse_partial (kind : Kind) (res tolOpt tolAgg : Rat) (nAgg : Int) (nRow nCol nnz : Nat)
+    (B : Nat → Nat → Rat) (fb : Bool) (outerFuel : Nat) (rands : List (List Nat)) (out : FitOut)
+    (h : leidenFit kind res tolOpt tolAgg nAgg nRow nCol nnz B fb outerFuel rands = .ok (some out)) :
     objective kind (kindAdj kind nRow nCol B fb).1 (kindAdj kind nRow nCol B fb).2 res (labOf out.labels)
       = objective kind (kindAdj kind nRow nCol B fb).1 (kindAdj kind nRow nCol B fb).2 res (fun u => u)
         + out.increases.sum ∧
     (∀ x ∈ out.increases, 0 ≤ x) ∧
     objective kind (kindAdj kind nRow nCol B fb).1 (kindAdj kind nRow nCol B fb).2 res (fun u => u)
       ≤ objective kind (kindAdj kind nRow nCol B fb).1 (kindAdj kind nRow nCol B fb).2 res (labOf out.labels) := by
-  obtain ⟨-, h2, h3⟩ := leidenFit_spec kind res tolOpt tolAgg nAgg nRow nCol nnz B fb coreFuel rands out h
+  obtain ⟨-, h2, h3⟩ := leidenFit_spec kind res tolOpt tolAgg nAgg nRow nCol nnz B fb outerFuel rands out h
   refine ⟨h2, h3, ?_⟩
   rw [h2]
   have : 0 ≤ out.increases.sum := list_sum_nonneg _ h3
   linarith
 
-/-- the refinement kernel, for every oracle: the refined partition refines the clusters it is given, and is
-    reached by nodes joining the refined cluster of a stored neighbour with the node's own label -/
+/-- **the full statements that are NOT proved.**  (1) For non-negative tolerances the models of the two fits always
+    return: `Louvain.fit` within the `n + 1` rounds its model allows, `Leiden.fit` within some number of aggregations
+    (the code has no limit; C17 proves the Louvain case for the kernel without its bound on the passes). -/
+def fits_return_full : Prop :=
+  ∀ (kind : Kind) (res tolOpt tolAgg : Rat) (nAgg : Int) (nRow nCol nnz : Nat) (B : Nat → Nat → Rat) (fb : Bool)
+    (rands : List (List Nat)), 0 ≤ tolOpt → 0 ≤ tolAgg →
+    louvainFitCapped kind res tolOpt tolAgg nAgg nRow nCol nnz B fb ≠ .ok none ∧
+    ∃ fuel : Nat, ∀ fuel', fuel ≤ fuel' →
+      leidenFit kind res tolOpt tolAgg nAgg nRow nCol nnz B fb fuel' rands ≠ .ok none
+
+/-- (2) The property as it reads for the compiled code: the float64 / float32 computation returns labels whose
+    objective (documented formula, exact) is within `ε` of objective(singletons) + Σ logged increases and not below
+    objective(singletons) − `ε`.  The kernel part is `optimize_core_increase_float32_full`; here it is stated of any
+    labels and logged increases an execution may return, as the spec lines test it (`ε = 2e-5`). -/
+def never_worse_float32_full (ε : Rat) (kind : Kind) (n : Nat) (A : Nat → Nat → Rat) (res : Rat)
+    (labels : List Nat) (increases : List Rat) : Prop :=
+  |objective kind n A res (labOf labels) - objective kind n A res (fun u => u) - increases.sum| ≤ ε ∧
+  objective kind n A res (fun u => u) - ε ≤ objective kind n A res (labOf labels)
+
+/-- the refinement kernel as compiled (at most `n + 1` passes), for every oracle: the refined partition refines the
+    clusters it is given, and is reached by nodes joining the refined cluster of a stored neighbour with the node's
+    own label -/
 theorem refine_refines (g : Graph Rat) (hcols : ∀ i, i < g.n → ∀ e ∈ g.row i, e.1 < g.n) (res : Rat)
     (labels : List Nat) (fuel : Nat) (st : RSt Rat) (rands : List Nat) (hinv : RefInv g.n labels st.refined)
     (refined' rest : List Nat) (h : refineCore g res labels fuel st rands = some (refined', rest)) :
     RefInv g.n labels refined' ∧ JoinSteps g st.refined refined' :=
   refineCore_spec g hcols res labels fuel st rands hinv refined' rest h
+
+/-- non-vacuity of `RefInv`: the singletons `Leiden._optimize_refine` starts from refine any clusters -/
+example : RefInv 6 [0, 0, 0, 1, 1, 1] (arange 6) :=
+  ⟨rfl, fun u v hu hv huv => by
+    rw [show arange 6 = List.range 6 from rfl, labOf_range 6 u hu, labOf_range 6 v hv] at huv
+    rw [huv]⟩
 
 /-- non-vacuity: the same two triangles through `Leiden.fit` (oracle `[[1,2,3,4,5,6,7,8,9,10,11,12]]`) -/
 example :
@@ -350,28 +445,29 @@ example :
       = some ([0, 0, 0, 1, 1, 1], [26/49, 0]) := by
   decide +kernel
 
-/-- **clusters_within_components (Louvain.fit).**  Whenever `Louvain.fit` returns, two nodes with the same label
-    are joined by a chain of non-zero weights of the matrix the kind works on (the input matrix, or its block
-    form for a bipartite graph), through every aggregation: no cluster contains nodes of two different connected
-    components. -/
-theorem louvain_clusters_within_components (kind : Kind) (res tolOpt tolAgg : Rat) (nAgg : Int)
-    (nRow nCol nnz : Nat) (B : Nat → Nat → Rat) (fb : Bool) (coreFuel : Nat) (out : FitOut)
-    (h : louvainFit kind res tolOpt tolAgg nAgg nRow nCol nnz B fb coreFuel = .ok (some out)) :
+/-- **clusters_within_components (Louvain.fit; partial: exact arithmetic, every run of the model that returns).**
+    Two nodes with the same label are joined by a chain of non-zero weights of the matrix the kind works on (the input
+    matrix, or its block form for a bipartite graph), through every aggregation: no cluster contains nodes of two
+    different connected components.  (With `shuffle_nodes=True`: third clause of `louvain_never_worse_shuffled_partial`.) -/
+theorem louvain_clusters_within_components_partial (kind : Kind) (res tolOpt tolAgg : Rat) (nAgg : Int)
+    (nRow nCol nnz : Nat) (B : Nat → Nat → Rat) (fb : Bool) (out : FitOut)
+    (h : louvainFitCapped kind res tolOpt tolAgg nAgg nRow nCol nnz B fb = .ok (some out)) :
     ∀ u v, u < (kindAdj kind nRow nCol B fb).1 → v < (kindAdj kind nRow nCol B fb).1 →
       labOf out.labels u = labOf out.labels v →
       Connected (kindAdj kind nRow nCol B fb).1 (kindAdj kind nRow nCol B fb).2 u v :=
-  louvainFit_comp kind res tolOpt tolAgg nAgg nRow nCol nnz B fb coreFuel out h
+  louvainFitCapped_comp kind res tolOpt tolAgg nAgg nRow nCol nnz B fb out h
 
-/-- **clusters_within_components (Leiden.fit).**  The same for `Leiden.fit`, for every oracle of the random
-    choices: although the graph is aggregated by the refined clusters, the returned (coarse) clusters stay inside
-    connected components of the matrix the kind works on. -/
-theorem leiden_clusters_within_components (kind : Kind) (res tolOpt tolAgg : Rat) (nAgg : Int)
-    (nRow nCol nnz : Nat) (B : Nat → Nat → Rat) (fb : Bool) (coreFuel : Nat) (rands : List (List Nat)) (out : FitOut)
-    (h : leidenFit kind res tolOpt tolAgg nAgg nRow nCol nnz B fb coreFuel rands = .ok (some out)) :
+/-- **clusters_within_components (Leiden.fit; partial as above).**  For every oracle of the random choices: although
+    the graph is aggregated by the refined clusters, the returned (coarse) clusters stay inside connected components
+    of the matrix the kind works on (mixed-sign weights whose block sums cancel included: the argument does not use
+    the stored pattern of the aggregate beyond "a stored entry comes from a stored entry"). -/
+theorem leiden_clusters_within_components_partial (kind : Kind) (res tolOpt tolAgg : Rat) (nAgg : Int)
+    (nRow nCol nnz : Nat) (B : Nat → Nat → Rat) (fb : Bool) (outerFuel : Nat) (rands : List (List Nat)) (out : FitOut)
+    (h : leidenFit kind res tolOpt tolAgg nAgg nRow nCol nnz B fb outerFuel rands = .ok (some out)) :
     ∀ u v, u < (kindAdj kind nRow nCol B fb).1 → v < (kindAdj kind nRow nCol B fb).1 →
       labOf out.labels u = labOf out.labels v →
       Connected (kindAdj kind nRow nCol B fb).1 (kindAdj kind nRow nCol B fb).2 u v :=
-  leidenFit_comp kind res tolOpt tolAgg nAgg nRow nCol nnz B fb coreFuel rands out h
+  leidenFit_comp kind res tolOpt tolAgg nAgg nRow nCol nnz B fb outerFuel rands out h
 
 /-- the executable component test of the spec lines accepts only labelings whose clusters lie inside connected
     components (`Connected`, the relation of the two theorems above) … -/
@@ -396,8 +492,8 @@ example : clustersWithinComponents 6 twoTriangles (fun u => u / 3) = true ∧
     the two triangles after two aggregations, with logged increases 26/49 and 0
     (objective 5/14 against −17/98 for the singletons) -/
 example :
-    (louvainFit .dugue 1 0 0 (-1) 6 6 14
-      twoTriangles false 100).toOption.join.map (fun o => (o.labels, o.increases))
+    (louvainFitCapped .dugue 1 0 0 (-1) 6 6 14
+      twoTriangles false).toOption.join.map (fun o => (o.labels, o.increases))
       = some ([0, 0, 0, 1, 1, 1], [26/49, 0]) := by
   decide +kernel
 
